@@ -39,6 +39,12 @@ def _eval_variant(task):
     mod, prop, root, tier, seed, base = _W['mod'], _W['prop'], _W['root'], _W['tier'], _W['seed'], _W['base']
     try:
         ctx = evaluate(mod, prop, front.Repo(root, overrides), tier, seed)
+        if kind == 'refactoring':
+            new_v = _viol_keys(ctx) - base
+            decided = len([o for o in ctx.obs if o.status in ('holds', 'violated')])
+            if decided < mod.FLOOR:
+                return kind, name, 'noisy', ['FLOOR: only %d obligations decided (< %d)' % (decided, mod.FLOOR)]
+            return kind, name, 'silent' if not new_v else 'noisy', sorted({k[0] for k in new_v})
         if kind == 'equivalent':
             new_v = {k[:2] for k in _viol_keys(ctx)} - {k[:2] for k in base}
             if _W.get('floor') is not None:
@@ -53,9 +59,9 @@ def _eval_variant(task):
         return kind, name, 'detected' if hit else 'missed', sorted({k[0] for k in new_v})
     except front.AnchorMissing:
         # reported as ANALYSIS-ERROR by the check, never a silent pass: fine for a breaking variant, noise for an equivalent one
-        return kind, name, 'detected' if kind != 'equivalent' else 'noisy', ['ANALYSIS-ERROR (anchor missing)']
+        return kind, name, 'detected' if kind not in ('equivalent', 'refactoring') else 'noisy', ['ANALYSIS-ERROR (anchor missing)']
     except Exception as e:      # a crash of the analysis on a variant is a checker defect, recorded as such
-        return kind, name, 'missed' if kind != 'equivalent' else 'noisy', ['CRASH %s: %s' % (type(e).__name__, e)]
+        return kind, name, 'missed' if kind not in ('equivalent', 'refactoring') else 'noisy', ['CRASH %s: %s' % (type(e).__name__, e)]
 
 
 def _run_tasks(tasks, jobs):
@@ -161,6 +167,22 @@ def sensitivity(mod, prop, root, tier, seed, jobs=None):
                 res['seeded_inapplicable'] += 1
             else:
                 tasks.append(('seeded', d.name, ov, []))
+        # stored behaviour-preserving refactorings (equivalent/): the check of the refactored property, and of every property that raised an alarm on it at first run, must stay silent
+        res.update({'refactoring_total': 0, 'refactoring_silent': 0, 'refactoring_inapplicable': 0, 'refactoring_noisy': []})
+        for d in sorted((here / 'equivalent').glob('*')):
+            try:
+                meta = json.loads((d / 'meta.json').read_text())
+                patch = (d / 'patch.diff').read_text()
+            except Exception:
+                continue
+            concerned = {meta.get('refactors_code_of')} | set((meta.get('first_run') or {}).get('checks_that_raised_an_alarm', {})) | set(meta.get('checks_that_raised_an_alarm', {}))
+            if prop not in concerned or meta.get('superseded'):
+                continue
+            ov = apply_patch(root, patch)
+            if ov is None:
+                res['refactoring_inapplicable'] += 1
+            else:
+                tasks.append(('refactoring', d.name, ov, []))
     if not tasks:
         return res
     _W.update(mod=mod, prop=prop, root=root, tier=tier, seed=seed, base=_viol_keys(evaluate(mod, prop, front.Repo(root), tier, seed)), floor=None, details=False)
@@ -178,6 +200,12 @@ def sensitivity(mod, prop, root, tier, seed, jobs=None):
                 res['equivalent_silent'] += 1
             else:
                 res['noisy'].append('%s %s' % (name, fired))
+        elif kind == 'refactoring':
+            res['refactoring_total'] += 1
+            if status == 'silent':
+                res['refactoring_silent'] += 1
+            else:
+                res['refactoring_noisy'].append('%s %s' % (name, fired))
         else:
             res['seeded_total'] += 1
             if status == 'detected':
@@ -220,6 +248,8 @@ def run_property(prop, tier, seed, root, replay=None):
                 ctx.note('sensitivity: equivalent variants that raised a report: %s' % ', '.join(s['noisy']))
             if s.get('seeded_missed'):
                 ctx.note('sensitivity: stored seeded changes no longer reported: %s' % ', '.join(s['seeded_missed']))
+            if s.get('refactoring_noisy'):
+                ctx.note('sensitivity: stored behaviour-preserving refactorings that raise a report: %s' % ', '.join(s['refactoring_noisy']))
         if tier == 'thorough':
             # false-alarm hunt: behaviour-preserving rewrites of every function the check consults must not raise a report
             from . import eqfuzz
